@@ -531,7 +531,15 @@ pub fn lex(line: &[u8]) -> Option<Lex> {
     }
     let mut fields = Vec::new();
     let mut start = delim + 1;
-    for j in delim + 1..star {
+    // the address is five bytes wide whatever they are (the grammar takes 2 + 3 bytes), and
+    // must be followed by a comma; the other fields are comma-separated
+    let mut from = delim + 1;
+    if star >= delim + 7 && line[delim + 6] == b',' {
+        fields.push(delim + 1..delim + 6);
+        start = delim + 7;
+        from = delim + 7;
+    }
+    for j in from..star {
         if line[j] == b',' {
             fields.push(start..j);
             start = j + 1;
